@@ -206,6 +206,12 @@ def one(prog, rep, cls, comb):
     if ok and vname == "?":
         ok, why = False, "the two comparisons use different vectors"
     if ok:
+        from vstat.terms import strip_conv as _sc
+        raw_xy = xy
+        xy = [_sc(v_) for v_ in xy]       # np.asarray(sample): a DataFrame / list of rows is converted, the values are the sample's
+        rep.check(all(r_ != v_ for r_, v_ in zip(raw_xy, xy)), "C04.pred", f"{q}:sample:array-like", site, "the sample is converted to an array before it is unpacked",
+                  "x, y = sample.T on the sample as supplied: a DataFrame (what read_ec_benchmark_dataset returns) raises 'too many values to unpack', a list of rows has no .T; "
+                  "unpack np.asarray(sample).T")
         smp = xy[0][1] if xy[0][0] == "col" else None
         ok = xy[0][0] == "col" and xy[1][0] == "col" and xy[0][1] == xy[1][1] and (xy[0][2], xy[1][2]) == (("const", 0), ("const", 1))
         want = {("attr", SELF, "sample"), ("call", ("attr", ("attr", SELF, "model"), "draw_sample"), (("attr", SELF, "n"),), ())}
@@ -607,6 +613,8 @@ def one(prog, rep, cls, comb):
                 if o_ is not None and o_[2] and o_[0] in (V(comp), ("sub", ("col", Lc(vname), ("const", 0)), ("const", comp))):
                     lim = o_[1]
                     lim = bf.name(lim[1], ifx[0], {}) if lim[0] == "local" else lim
+                    from vstat.terms import strip_conv as _sc
+                    lim = _sc(lim)
                     for mx in (("call", G("max"), (col,), ()), ("call", G("numpy.max"), (col,), ())):
                         if algebra.same(lim, ("bin", "*", ("const", 1.1), mx)):
                             return True
